@@ -157,14 +157,16 @@ func EncodeKeyValues(kvs []KV) []byte {
 	return buf.Bytes()
 }
 
-// DecodeTar lists the entries of a tar stream in order.  Trailing bytes after the end-of-archive
-// marker (e.g. an error text appended by the server) are returned separately.
+// DecodeTar lists the entries of a tar stream in order and checks that the stream is a COMPLETE archive:
+// every entry padded to 512 bytes and the two zero blocks of the end-of-archive marker present.
+// (archive/tar alone tolerates a stream that stops after the last entry's data and silently eats
+// whatever follows as "padding" — exactly the shape of a response whose producer failed half way.)
+// Bytes after the end marker are returned as trailing; a missing marker or a cut entry is an error.
+// Only plain entries are expected (keys are short ASCII names, so no PAX/GNU extension headers).
 func DecodeTar(b []byte) (kvs []KV, trailing []byte, err error) {
-	if len(b) == 0 {
-		return nil, nil, nil
-	}
 	rd := bytes.NewReader(b)
 	tr := tar.NewReader(rd)
+	expected := 0
 	for {
 		h, e := tr.Next()
 		if e == io.EOF {
@@ -173,16 +175,39 @@ func DecodeTar(b []byte) (kvs []KV, trailing []byte, err error) {
 		if e != nil {
 			return kvs, nil, e
 		}
+		if h.Typeflag != tar.TypeReg && h.Typeflag != 0 {
+			return kvs, nil, fmt.Errorf("unexpected tar entry type %q for %q", h.Typeflag, h.Name)
+		}
 		v, e := io.ReadAll(tr)
 		if e != nil {
 			return kvs, nil, e
 		}
+		if int64(len(v)) != h.Size {
+			return kvs, nil, fmt.Errorf("tar entry %q: header says %d bytes, stream has %d", h.Name, h.Size, len(v))
+		}
 		kvs = append(kvs, KV{K: h.Name, V: v})
+		expected += 512 + (len(v)+511)/512*512
 	}
-	// tar.Reader stops at the first zero block pair; whatever follows is not part of the archive
-	rest, _ := io.ReadAll(rd)
-	rest = bytes.TrimLeft(rest, "\x00")
-	return kvs, rest, nil
+	if len(b) < expected+1024 {
+		return kvs, nil, fmt.Errorf("incomplete tar archive: %d entries need %d bytes plus a 1024-byte end marker, stream has %d bytes (tail %q)", len(kvs), expected, len(b), tail(b, expected))
+	}
+	for _, c := range b[expected : expected+1024] {
+		if c != 0 {
+			return kvs, nil, fmt.Errorf("tar end-of-archive marker missing after %d entries (found %q)", len(kvs), tail(b, expected))
+		}
+	}
+	return kvs, bytes.TrimLeft(b[expected+1024:], "\x00"), nil
+}
+
+func tail(b []byte, from int) string {
+	if from > len(b) {
+		from = len(b)
+	}
+	t := b[from:]
+	if len(t) > 120 {
+		t = t[:120]
+	}
+	return string(t)
 }
 
 // DecodeJSONObject decodes {"k":<json>, ...} keeping member order and duplicates; values are the raw
